@@ -597,6 +597,48 @@ fn level5(ctx: &Ctx, report: &mut Report) -> usize {
     n
 }
 
+
+/// Level 6: strings made by the repository's own command-line host.  `read_file_to_string` hands the
+/// program the contents of a file; that string and the same bytes made by any producer in the language are
+/// one string.  Every target is written to a file, every producer is paired with the file's string in both
+/// orders, and the whole runs through the `yarel-cli` binary itself.
+fn level6(ctx: &Ctx, report: &mut Report) -> usize {
+    let dir = crate::cli::scratch_dir(ctx, "c11");
+    let targets: Vec<(&str, &str, Vec<String>)> = vec![
+        ("ab.txt", "ab", vec!["\"ab\"".into(), "\"a\" + \"b\"".into(), "\"xabx\"[1..3]".into(), "String.from_utf8([97, 98])".into(), "\"ab|c\".split(\"|\")[0]".into()]),
+        ("e.txt", "\u{e9}", vec!["\"\u{e9}\"".into(), "String.from_utf8([195, 169])".into(), "\"a\u{e9}b\"[1..3]".into()]),
+        ("empty.txt", "", vec!["\"\"".into(), "\"a\"[0..0]".into()]),
+        ("long.txt", LONG70, long_producers(LONG70).into_iter().take(6).collect()),
+        ("lines.txt", "first\nsecond\n", vec!["\"first\\nsecond\\n\"".into(), "\"first\\n\" + \"second\\n\"".into(), "\"${\"first\"}\\nsecond\\n\"".into()]),
+    ];
+    let expected = "true\ntrue\nhit\ntrue\n1\n5\ntrue\nfalse\ntrue\n";
+    let mut n = 0;
+    for (file, text, prods) in &targets {
+        if std::fs::write(dir.join(file), text.as_bytes()).is_err() {
+            crate::pool::machinery_failure("cannot write a scratch file for the command-line host");
+        }
+        for p in prods {
+            for file_first in [true, false] {
+                let (a, b) = if file_first { (format!("read_file_to_string(\"{}\")", file), p.clone()) } else { (p.clone(), format!("read_file_to_string(\"{}\")", file)) };
+                let src = format!(
+                    "var p1 = {};\nvar fill = [];\nfor i in 0..9 {{ fill.push(\"f\" + String.from(i)); }}\nvar p2 = {};\nprint(p1 == p2);\nprint(!(p1 != p2));\nvar m = {{p1: \"hit\"}};\nprint(m.get(p2));\nprint(m.has_key(p2));\nm.insert(p2, \"again\");\nprint(m.len());\nprint({{(p1, 1): 5}}.get((p2, 1)));\nprint(p1 + \"!\" == p2 + \"!\");\nprint(p1 == p2 + \"x\");\nprint(p1.len() == p2.len());\n",
+                    a, b
+                );
+                let script = dir.join("probe.yl");
+                // (one worker: the checks of this level run one after the other)
+                let _ = std::fs::write(&script, &src);
+                let r = crate::cli::run(ctx, &dir, &["probe.yl"], None);
+                n += 1;
+                if r.stdout != expected || r.code != Some(0) {
+                    let problem = format!("through yarel-cli: printed {:?}, stderr {:?}, exit {:?}; expected {:?} and exit 0", r.stdout, r.stderr.chars().take(300).collect::<String>(), r.code, expected);
+                    report.violations.push((format!("[level 6, a file's contents against {}] {}", p, problem), json!({"family": "level6_command_line_host", "source": src, "file": file, "file_contents": text, "problem": problem})));
+                }
+            }
+        }
+    }
+    n
+}
+
 pub fn run(ctx: &Ctx) -> Report {
     let mut report = Report::new();
     let (states, transitions, max_cap, max_chain, samples) = level1(ctx, &mut report);
@@ -604,6 +646,8 @@ pub fn run(ctx: &Ctx) -> Report {
     let (t3, n3, cap3, growths3) = level3(ctx, &mut report);
     let n4 = level4(ctx, &mut report);
     let n5 = level5(ctx, &mut report);
+    let n6 = level6(ctx, &mut report);
+    report.cov("level6_runs_of_the_command_line_host", json!(n6));
     let transitions = transitions + t3;
     let n2 = n2 + n4 + n5;
     report.cov("level5_histories", json!(n5));
@@ -618,7 +662,7 @@ pub fn run(ctx: &Ctx) -> Report {
     report.cov("evaluations", json!(transitions + n2));
     report.cov("distinct_nontrivial", json!(states + n2));
     report.cov("exhaustive", json!(true));
-    report.cov("rule", json!("level 1: breadth-first search over every sequence of intern/probe operations on keys with designed hashes (collisions in the low 2/3/4 bits, an identical-full-hash pair, the empty string, fillers) up to the depth bound; a state is the real table's slot array; every transition is executed on the real table (fresh table, history replayed) and compared with a reference map; invariants checked in every state. level 2: every (sampled in quick: half of the) ordered pair of producers of each target string with k fresh strings created before and between, k over the filler set: equality, map selection, tuple-key selection, inequality of one-byte-different strings; a global defined under a host-created name; the targets include two long strings (40 and 70 bytes) cut out of longer ones at offsets 1-9, and strings the interpreter itself makes (messages of the errors it raises, as a handler sees them). level 3: growth at every size - after n = 0..N filler keys of two families each of eight trigger keys (hashes chosen against the table's current capacity) is interned on a fresh copy of the real table, the whole slot array is compared with the reference and the invariants, and after an insertion that grew the table the key, the first, the middle and the last filler are looked up again. level 4: ladders of n strings produced twice by different producers through the language (compared and used as map keys at once and again at the end), collecting at every allocation for the short ones, and programs declaring and reading up to 1600/3200 global names. level 5: strings that outlive a program - for every ordered pair of producers of five target strings: a value read from a global, kept by the embedding across a reset and handed back, against a string made afterwards; the same across two programs without a reset; a compiled function kept and run again after one and two resets; a string the host makes before or after a reset against one the program makes; a function of an earlier program kept across a reset."));
+    report.cov("rule", json!("level 1: breadth-first search over every sequence of intern/probe operations on keys with designed hashes (collisions in the low 2/3/4 bits, an identical-full-hash pair, the empty string, fillers) up to the depth bound; a state is the real table's slot array; every transition is executed on the real table (fresh table, history replayed) and compared with a reference map; invariants checked in every state. level 2: every (sampled in quick: half of the) ordered pair of producers of each target string with k fresh strings created before and between, k over the filler set: equality, map selection, tuple-key selection, inequality of one-byte-different strings; a global defined under a host-created name; the targets include two long strings (40 and 70 bytes) cut out of longer ones at offsets 1-9, and strings the interpreter itself makes (messages of the errors it raises, as a handler sees them). level 3: growth at every size - after n = 0..N filler keys of two families each of eight trigger keys (hashes chosen against the table's current capacity) is interned on a fresh copy of the real table, the whole slot array is compared with the reference and the invariants, and after an insertion that grew the table the key, the first, the middle and the last filler are looked up again. level 4: ladders of n strings produced twice by different producers through the language (compared and used as map keys at once and again at the end), collecting at every allocation for the short ones, and programs declaring and reading up to 1600/3200 global names. level 5: strings that outlive a program - for every ordered pair of producers of five target strings: a value read from a global, kept by the embedding across a reset and handed back, against a string made afterwards; the same across two programs without a reset; a compiled function kept and run again after one and two resets; a string the host makes before or after a reset against one the program makes; a function of an earlier program kept across a reset. level 6: through the repository's own command-line host (the yarel-cli binary): the string `read_file_to_string` makes from a file against every producer of the same bytes in the language, both orders, five files (ASCII, a two-byte character, empty, 70 bytes, two lines)."));
     report.cov("bounds", json!({"level1_depth": if ctx.thorough() { 10 } else { 8 }, "level1_keys": pool(ctx.thorough()).len(), "level2_programs": n2}));
     report.cov("level1_max_capacity_reached", json!(max_cap));
     report.cov("level1_longest_probe_displacement", json!(max_chain));
